@@ -31,6 +31,8 @@ CONFIG = dict(pkg="./config", test="TestVerifConfig", name="config", diff=True)
 
 LOAD = dict(pkg="./cache/disk", test="TestVerifLoad", name="load", diff=True, also=["C09", "C04"])
 
+CRASH = dict(pkg="./cache/disk", test="TestVerifCrash", name="crash", diff=False)
+
 COMMON_TB = [
     "goroutine scheduling, sync.Mutex and the file system are modelled (atomic lock regions, process-visible file state), not verified",
 ]
@@ -118,6 +120,10 @@ PROPS = {
         lean="BR.Props.C09", runs=[LOAD], trusted_base=COMMON_TB + ["os.ReadDir, os.Rename, atime.Get and the file system's access times are modelled (a list of files with distinct integer access times), not verified"], assumptions=["access times of the files are pairwise distinct (sort.Sort is not stable)"],
         level_text="Theorems on M6 (loader) over M1 (index): for every population of files with distinct keys and every max_size the index after restart is the longest most recently accessed tail, in access-time order, of the files that individually fit, everything else is removed, the accounting invariant holds, nothing is evicted when the directory fits; with duplicate keys the invariant holds and every file stays tracked. Generated directories (current layout in both storage modes, v1/v0 layouts, duplicates, lost+found) restarted with the real New() and compared with the model and with direct oracles, followed by a forced eviction.",
         level_note=NOTE + "migration renames and directory scanning are compared on generated populations, not proved.", technique=TECH),
+    "C08": dict(
+        lean="BR.Props.C08", runs=[CRASH, LOAD], trusted_base=COMMON_TB + ["a kill is modelled as a file-system image between two write calls of the upload (process-kill semantics: completed writes are visible); power loss, fsync and directory-entry durability are not modelled"], assumptions=[],
+        level_text="Theorems on M2/M6/M1: every file image a compressed upload can leave at a kill, except the final one of a successful write, is refused by readHeader and so by both readers (absent or complete, for all sizes, chunk sizes and streams); the final image is served identically at every offset; restart on any set of files re-establishes the accounting invariant and keeps every file tracked; a raw file (AC, RAW, uncompressed CAS) is adopted with its current length (F16). The real Put is interrupted at generated stream offsets, at the gate between file completion and index insertion and after the acknowledgement; every image is restarted in both storage modes and read through every path.",
+        level_note=NOTE + "partial: power-loss durability is outside the model; torn raw files are the recorded finding F16.", technique=TECH),
 }
 
 _root = os.path.dirname(os.path.dirname(os.path.abspath(__file__)))
